@@ -12,11 +12,14 @@ import (
 	"math/rand"
 	"strconv"
 	"strings"
+	"sync"
 	"time"
 	"unicode/utf8"
 
 	"github.com/lrstanley/girc"
 )
+
+var cdZoneOnce sync.Once
 
 type cdTag struct {
 	key    string
@@ -416,7 +419,7 @@ var (
 	cdGSrcOdd  = []string{"", "a b", "a@b", "a!b", "\r", "x\x00"}
 	cdGKey     = []string{"a", "time", "account", "msgid", "example.com/ddd", "a.b/c", "+client", "+example.com/foo", "draft/label", "k-1", "z", "B", "a", "time"}
 	cdGKeyOdd  = []string{"", "+", "k_2", "a=b", "a b", "k;", "caf\xc3\xa9", "++a"}
-	cdGVal     = []string{"", "v", "a b", "a;b", `a\b`, "cr\rlf\n", `; \` + "\r\n", `\\`, `\s`, `\:`, "  ", ";;", "caf\xc3\xa9", "tab\t", "=eq=", `trail\`, "\xff", ":"}
+	cdGVal     = []string{`C:\new\share`, `\n`, `\r`, `\\s`, `\\n`, `\\:`, `x\`, "", "v", "a b", "a;b", `a\b`, "cr\rlf\n", `; \` + "\r\n", `\\`, `\s`, `\:`, "  ", ";;", "caf\xc3\xa9", "tab\t", "=eq=", `trail\`, "\xff", ":"}
 	cdGTimeVal = []string{"2019-02-21T20:12:03.000Z", "2011-10-19T16:40:51.620Z", "1970-01-01T00:00:00.000Z", "2024-02-29T23:59:59.999Z", "2038-01-19T03:14:08.001Z", "0001-01-01T00:00:00.000Z",
 		"bad", "", "yesterday", "T", "2019-02-30T00:00:00.000Z", "2019-02-21T20:12:03Z", "2019-02-21 20:12:03.000Z", "20190221T201203.000Z"}
 )
@@ -551,6 +554,11 @@ func init() {
 			return cdGenAst(r, odd).toCase()
 		},
 		Run: func(c Case) Result {
+			cdZoneOnce.Do(func() {
+				// the sandbox runs in UTC: make time.Local differ from UTC so that a
+				// server-time parsed in the wrong location gives a different instant
+				time.Local = time.FixedZone("VERIF+0530", 5*3600+1800)
+			})
 			a := cdDecodeAst(c)
 			line := a.render()
 			ref := cdRefMeaning(a)
